@@ -2,6 +2,7 @@ package rrsim
 
 import (
 	"fmt"
+	"net/http"
 	"sort"
 	"testing"
 
@@ -22,7 +23,10 @@ func c01prop(r *simkit.Run) {
 	rt := r.T
 	viaRB := rapid.Bool().Draw(rt, "via-rebalancer")
 	fine := rapid.Bool().Draw(rt, "fine")
-	w := newRRWorld(r, viaRB, false, false)
+	// with sticky sessions enabled, requests carrying a valid affinity cookie are pinned and must not disturb the
+	// rotation seen by everybody else: the balanced selections alone still form the exact sequence
+	sticky := rapid.IntRange(0, 2).Draw(rt, "sticky-sessions") == 0
+	w := newRRWorld(r, viaRB, sticky, false)
 	defer w.sim.Shutdown()
 
 	// phase 1: an arbitrary prior history of pool changes and selections (sequential)
@@ -138,6 +142,7 @@ func c01prop(r *simkit.Run) {
 	K := rapid.IntRange(1, 6).Draw(rt, "callers")
 	var sels []selection
 	errs := 0
+	pinned, pinnedWrong := 0, 0
 	if sum == 0 {
 		// all zero (or empty): every selection is an error, never a URL
 		for i := 0; i < 6; i++ {
@@ -172,8 +177,32 @@ func c01prop(r *simkit.Run) {
 		useServe := rapid.Bool().Draw(rt, "caller-serves")
 		cnt := share
 		c := c
+		// every few selections this caller also sends a request pinned by a cookie to a positive-weight member
+		pinEvery := 0
+		pinTo := ""
+		if sticky {
+			pinEvery = rapid.IntRange(0, 3).Draw(rt, "pinned-every")
+			for _, m := range w.model.m {
+				if m.weight > 0 {
+					pinTo = m.str
+				}
+			}
+		}
 		w.sim.Spawn(fmt.Sprintf("caller%d", c), func() {
 			for i := 0; i < cnt; i++ {
+				if pinEvery > 0 && pinTo != "" && i%pinEvery == 0 {
+					for k := 0; k < pinEvery; k++ {
+						op := &rrOp{kind: "serve", sticky: true}
+						op.task = w.sim.Current()
+						req := newServeRequest(op)
+						req.AddCookie(&http.Cookie{Name: "aff", Value: pinTo})
+						w.handler().ServeHTTP(simkit.NewRecorder(), req)
+						if !op.invoked || op.outKey != keyOf(mustURL(pinTo)) {
+							pinnedWrong++
+						}
+						pinned++
+					}
+				}
 				if useServe {
 					op := &rrOp{kind: "serve"}
 					op.task = w.sim.Current()
@@ -200,6 +229,10 @@ func c01prop(r *simkit.Run) {
 	w.sim.MaxStep = 400000
 	w.sim.Quiesce()
 	w.check()
+	if pinnedWrong > 0 {
+		r.Fail("affinity-lost", "%d of %d requests with a valid affinity cookie did not reach their server", pinnedWrong, pinned)
+	}
+	r.ProbeN("pinned-requests-interleaved", pinned)
 	if errs > 0 {
 		r.Fail("spurious-error", "%d of %d selections failed on a pool with positive weights %s", errs, total, w.model.encode())
 	}
